@@ -298,7 +298,7 @@ func c123Scenarios() []c123Scenario {
 func c123Test(t *testing.T, prop string) {
 	defer vsched.Finish(t)
 	r := vsched.Rep()
-	r.Assumption("sequentially consistent interleavings at shimmed sync/atomic operations in the dispatch path (scope listed in the harness); the rest of the actor system runs atomically between points; 2 dispatcher workers; segmentSize=2, localQueueCap=2, contextPoolSize=2 (overridden constants)")
+	r.Assumption("sequentially consistent interleavings at shimmed sync/atomic operations in the dispatch path (scope listed in the harness); the rest of the actor system runs atomically between points; 2 dispatcher workers; segmentSize=2, localQueueCap=3, contextPoolSize=2 (overridden constants)")
 	var all []vsched.Scenario
 	for _, sc := range c123Scenarios() {
 		sc := sc
